@@ -294,25 +294,41 @@ def ratio_direction(repo, res):
         res.check(guarded, f"ratio@{tag}" if n_ratio < 2 and not lit else f"shortcut:{norm(r.value)}", fn.where(r), "a conversion factor is returned that is not old scale / new scale" + (f": the literal factor is taken under {conds}, which does not make the two scales equal (units of the same spelling from two registries, or a symbol modified in one of them, differ in scale)" if lit else ""), ratio_txt, first, rid=r4)
     if n_ratio < 2:
         res.bad("ratio-returns", fn.where(), "the plain and the affine exit must both return old scale / new scale", rid=r4)
-    aff = [r for r in rets if norm(r.value.elts[1]) != "None"]
-    if len(aff) != 1:
+    # affine exit: offset term = ratio * old_offset - new_offset, where an offset is divided by the unit's own scale
+    # exactly when the unit carries an SI prefix (the prefix must not scale the offset); value flow per path
+    from engine.sem import summarise
+
+    R = ratio_txt
+    n_aff = 0
+    ok = True
+    found = []
+    for x in summarise(fn):
+        if x.kind != "return":
+            continue
+        val = ast.parse(x.value).body[0].value
+        if not (isinstance(val, ast.Tuple) and len(val.elts) == 2) or norm(val.elts[1]) == "None":
+            continue
+        n_aff += 1
+        second = norm(val.elts[1])
+        forms = {}
+        for oname, u in (("old", old), ("new", new)):
+            pfx_plain = x.has(f"_split_prefix(str({u}), {u}.registry.lut)[0] == ''", True)
+            pfx_set = x.has(f"_split_prefix(str({u}), {u}.registry.lut)[0] == ''", False)
+            temp = x.has(f"{old}.dimensions == temperature", True)
+            forms[oname] = f"{u}.base_offset / {u}.base_value" if (temp and pfx_set) else f"{u}.base_offset"
+        want = f"{R} * {forms['old']} - {forms['new']}"
+        alt = f"{R} * ({forms['old']}) - {forms['new']}"
+        good = second.replace("(", "").replace(")", "") == want.replace("(", "").replace(")", "")
+        ok &= good and norm(val.elts[0]) == R
+        if not good:
+            found.append((second, want))
+    if n_aff == 0:
         raise AnalysisError(f"{fn.where()}: affine return not found")
-    off = aff[0].value.elts[1]
-    # offsets are re-assigned (prefix rescale), so resolve them to their first definition by hand
-    firstdef = {}
-    for st in fn.body:
-        if isinstance(st, ast.Assign) and isinstance(st.targets[0], ast.Name) and st.targets[0].id not in firstdef:
-            firstdef[st.targets[0].id] = norm(st.value)
-    ok = False
-    found = norm(off)
-    if isinstance(off, ast.BinOp) and isinstance(off.op, ast.Sub) and isinstance(off.left, ast.BinOp) and isinstance(off.left.op, ast.Mult):
-        fs = [off.left.left, off.left.right]
-        texts = [ex.expand(f) for f in fs]
-        ro = [f for f, tx in zip(fs, texts) if tx == ratio_txt]
-        oo = [f for f, tx in zip(fs, texts) if tx != ratio_txt]
-        if len(ro) == 1 and len(oo) == 1 and isinstance(oo[0], ast.Name) and isinstance(off.right, ast.Name):
-            ok = firstdef.get(oo[0].id) == f"{old}.base_offset" and firstdef.get(off.right.id) == f"{new}.base_offset"
-    res.check(ok, "affine-offset", fn.where(aff[0]), "offset term must be ratio * old_offset - new_offset", "ratio * old.base_offset - new.base_offset", found, rid=r4)
+    res.check(ok, "affine-offset", fn.where(), "offset term must be ratio * old_offset - new_offset (an offset divided by its unit's scale exactly when that unit carries an SI prefix)", "ratio * old.base_offset - new.base_offset", found[:2], rid=r4)
+    # the plain exit (no offset) is taken only when both offsets are zero
+    for x in summarise(fn):
+        if x.kind == "return" and x.value.endswith(", None)"):
+            res.check(x.has(f"{old}.base_offset == 0", True) and x.has(f"{new}.base_offset == 0", True), "plain-exit-guard", fn.where(), "a conversion without an offset term is returned only when both units have no offset (otherwise readings on offset scales are converted as differences)", f"{old}.base_offset == 0 and {new}.base_offset == 0", sorted(x.facts), rid=r4)
 
 
 MUTANTS = [
